@@ -249,7 +249,18 @@ def with_history(gen):
                 case = dict(case, history=HISTORIES[3 + (z >> 8) % (len(HISTORIES) - 3)])
             if (z >> 16) % 3 == 0 and 'span' not in case and not case.get('mixed'):
                 # the same labels at other positions than in the neighbouring cases (integer spans with another origin)
-                case = dict(case, span={'k': 'range', 'start': [1, -1, 2, 7][(z >> 20) % 4], 'n': case.get('n', 3), 'step': 1})
+                n_ = case.get('n', 3)
+                origin = [1, -1, 2, 7][(z >> 20) % 4]
+                kind = (z >> 22) % 4
+                if kind == 1:       # ... or a NumPy array of integer labels / of string labels / a plain list
+                    span_ = {'k': 'np', 'items': list(range(origin, origin + n_))}
+                elif kind == 2:
+                    span_ = {'k': 'np', 'items': ['p%d' % (origin + i) for i in range(n_)]}
+                elif kind == 3:
+                    span_ = {'k': 'list', 'items': list(range(origin, origin + n_))}
+                else:
+                    span_ = {'k': 'range', 'start': origin, 'n': n_, 'step': 1}
+                case = dict(case, span=span_)
             if (z >> 24) % 3 == 0 and 'entry' not in case:
                 case = dict(case, entry='solve_period')      # the same period requested by label
             yield case
